@@ -47,7 +47,8 @@ CHECKS = {
         "technique": "rapid property-based testing: generated build pairs x compression settings, round-trip oracle with an independent tree comparer",
         "level_text": ("Build pairs are generated from a tiny path alphabet with shared high-entropy streams, block-boundary size classes, "
                        "rename/duplicate/swap/chain/prefix/concat/kind-change operations and rare >4MiB files; every registered "
-                       "compressor and quality is drawn. The verdict is the independent comparison of the freshly applied tree with "
+                       "compressor and quality is drawn; in one third of the cases the differ reads the new build through readers that slice their "
+                       "reads and may return their last bytes together with io.EOF (as zip-backed pools do). The verdict is the independent comparison of the freshly applied tree with "
                        "the new build. Sampling, with shrinking; no claim beyond the explored cases."),
         "level_note": "trusted: the harness' own tree writer/reader (os + filepath), the patch decoder used only for class tags.",
         "rule": ("rapid draws (old tree, derivation ops -> new tree, compression). Oracle: WritePatch nil; fresh apply nil; applied tree == new "
@@ -55,9 +56,10 @@ CHECKS = {
                  "non-empty DATA op outside whole-file series, or a whole-file series whose old path differs. Distinct: SHA-1 of the spec."),
         "assumptions": ["gzip levels outside -2..9 are rejected by the compressor itself and counted as skipped",
                         "file modes are not varied (0644/0755 only)"],
-        "required_classes": {"quick": ["op:blockrange", "op:data", "op:wholefile-renamed", "comp:gzip", "comp:brotli", "size:=k*64Ki"],
+        "required_classes": {"quick": ["op:blockrange", "op:data", "op:wholefile-renamed", "comp:gzip", "comp:brotli", "size:=k*64Ki",
+                                       "source:last-bytes-with-EOF"],
                              "thorough": ["op:blockrange", "op:data", "op:wholefile-renamed", "comp:gzip", "comp:brotli", "size:=k*64Ki",
-                                          "size:>4MiB", "rel:aligned-prefix-of-larger-old", "old:two-files-share-a-block", "op:data-run>=4MiB"]},
+                                          "source:last-bytes-with-EOF", "size:>4MiB", "rel:aligned-prefix-of-larger-old", "old:two-files-share-a-block", "op:data-run>=4MiB"]},
         "stages": [rapid("roundtrip", "TestProp", 4800, 256000, qs=16, ts=16, qt=600, tt=5400)],
     },
     "C02": {
